@@ -11,7 +11,8 @@ EXTENDS Frost, Json
 
 CONSTANTS Shapes, IdSets, KeyChoices, CoeffChoices, RandChoices, Msg, MaxExtra,
           SeedChoices,      \* randomizer seeds (values encoded as 2 bytes)
-          Faults,           \* subset of {"none","seed","comm","share","fixed","few"}
+          Faults,           \* subset of {"none","seed","comm","share","share2","fixed","few"}
+                            \* (share2: the victim's and its neighbour's shares are both altered)
           SeedFaults,       \* how the victim's seed differs: subset of {"last","append","append0","trunc","empty"}
           FixedAlphas,      \* explicit randomizers for fault "fixed" (honest run with from_randomizer)
           Modes, EMIT
@@ -115,7 +116,7 @@ DoSign ==
          seed == IF sc.fault = "seed" /\ i = sc.victim THEN SEEDX ELSE SEED
          pkg == IF sc.fault = "comm" /\ i = sc.victim THEN PKGX ELSE PKG
      IN ActRrSign(<<"z", i>>, pkg, <<"non", i>>, KPH(i), seed)
-  /\ Go(IF LastS(pc[2]) THEN (IF sc.fault = "share" THEN <<"badshare", 0>> ELSE <<"agg", 1>>) ELSE <<"sign", pc[2] + 1>>)
+  /\ Go(IF LastS(pc[2]) THEN (IF sc.fault \in {"share", "share2"} THEN <<"badshare", 0>> ELSE <<"agg", 1>>) ELSE <<"sign", pc[2] + 1>>)
   /\ UNCHANGED sc
 
 \* explicit randomizer: participants use the deprecated sign-with-randomizer path,
@@ -128,8 +129,9 @@ FSign ==
 
 BadShare ==
   /\ pc[1] = "badshare"
-  /\ ActTamperShare(<<"z", sc.victim>>, <<"z", sc.victim>>, "add", 1)
-  /\ pc' = <<"agg", 1>>
+  /\ IF pc[2] = 0 THEN ActTamperShare(<<"z", sc.victim>>, <<"z", sc.victim>>, "add", 1)
+     ELSE ActTamperShare(<<"z", Neighbour>>, <<"z", Neighbour>>, "add", 2)
+  /\ pc' = IF sc.fault = "share2" /\ pc[2] = 0 THEN <<"badshare", 1>> ELSE <<"agg", 1>>
   /\ UNCHANGED sc
 
 DoAggregate ==
@@ -193,8 +195,13 @@ InvFaulty ==
   (Chosen /\ sc.fault \in {"seed", "comm", "share"} /\ last.op = "aggregate" /\ ~last.res.ok /\ last.res.err = "InvalidSignatureShare") =>
      last.res.culprits = (IF ModeOfLast = "Disabled" THEN << >> ELSE <<sc.victim>>)
 InvFaultyShare ==
-  (Chosen /\ sc.fault = "share" /\ last.op = "aggregate") =>
-     (~last.res.ok /\ (ModeOfLast # "Disabled" => last.res.culprits = <<sc.victim>>))
+  /\ (Chosen /\ sc.fault = "share" /\ last.op = "aggregate") =>
+        (~last.res.ok /\ (ModeOfLast # "Disabled" => last.res.culprits = <<sc.victim>>))
+  \* two altered shares (+1 and +2 do not cancel): every cheater is named by AllCheaters, the lowest by FirstCheater
+  /\ (Chosen /\ sc.fault = "share2" /\ last.op = "aggregate") =>
+        LET both == Sorted({sc.victim, Neighbour}) IN
+        (~last.res.ok /\ (ModeOfLast = "AllCheaters" => last.res.culprits = both)
+                     /\ (ModeOfLast = "FirstCheater" => last.res.culprits = <<both[1]>>))
 
 \* fewer than t signers never obtain a signature, randomized or not
 InvFew ==
